@@ -663,7 +663,7 @@ def valid_case(item):
             inner = dict(case=[7, tree, sources, sigs, [[w, p, [[r, 0] for r in k]] for w, p, k in steps], [0, 0, 1]],
                          kind="leptos-components")
             return (five == 5 and form in (1, 2) and c04.valid_case(inner) and all(c04.ev(e, sigs) != 0 for e in conds)
-                    and _boundaries_wrapped(tree)
+                    and _boundaries_wrapped(tree) and "(11 " not in C.sx(tree)
                     and all(p == [] and all(isinstance(r, int) for r in k) for _w, p, k in steps))
         except Exception:
             return False
@@ -913,7 +913,7 @@ def gen_leptos_case(rng):
         conds = []
         _eb_conditions(tree, conds)
         # an ErrorBoundary that has errors at render time needs the serialised errors of the shared context
-        if all(c04.ev(e, sigs) != 0 for e in conds):
+        if all(c04.ev(e, sigs) != 0 for e in conds) and "(11 " not in C.sx(tree):
             break
     tree = _wrap_boundaries(tree)
     # polls in task order: each tree has resources and effects of its own, a chosen order would interleave them
